@@ -166,6 +166,14 @@ func (r *Reader) parseSlides() error {
 		return extractSlideNumber(slideFiles[i]) < extractSlideNumber(slideFiles[j])
 	})
 
+	// The presentation declares the slide order (sldIdLst, resolved through the
+	// presentation relationships); file names carry no order and a package may
+	// hold slide parts that are not part of the show. Use the declared order
+	// whenever it can be resolved.
+	if declared := r.declaredSlideOrder(slideFiles); len(declared) > 0 {
+		slideFiles = declared
+	}
+
 	r.slides = make([]*Slide, 0, len(slideFiles))
 
 	for i, slidePath := range slideFiles {
@@ -188,6 +196,40 @@ func (r *Reader) parseSlides() error {
 	}
 
 	return nil
+}
+
+// declaredSlideOrder returns the slide parts in the order of the presentation's
+// slide list, restricted to parts that exist in the package. It returns nil if the
+// slide list or the relationships are missing.
+func (r *Reader) declaredSlideOrder(existing []string) []string {
+	if r.presentation == nil || r.presentation.SlideIdList == nil || r.presRels == nil {
+		return nil
+	}
+	targets := make(map[string]string, len(r.presRels.Relationship))
+	for _, rel := range r.presRels.Relationship {
+		targets[rel.ID] = rel.Target
+	}
+	present := make(map[string]bool, len(existing))
+	for _, name := range existing {
+		present[name] = true
+	}
+	var ordered []string
+	for _, id := range r.presentation.SlideIdList.SlideId {
+		target := targets[id.RID]
+		if target == "" {
+			continue
+		}
+		// Targets are relative to ppt/ unless they start with a slash
+		name := strings.TrimPrefix(target, "/")
+		if !strings.HasPrefix(target, "/") {
+			name = path.Join("ppt", target)
+		}
+		if present[name] {
+			ordered = append(ordered, name)
+			present[name] = false // a part is shown once even if listed twice
+		}
+	}
+	return ordered
 }
 
 // extractSlideNumber extracts the slide number from a path like "ppt/slides/slide1.xml"
